@@ -380,6 +380,26 @@ def x7_shims(text, log):
         return "vx_splitn2(%s, %s)" % (m.group(1), m.group(2))
     text = re.sub(r"\b([a-z_][a-z0-9_]*)\.splitn\(2, ('.')\)\.collect\(\)", splitn, text)
 
+    def beforefirst(m):
+        log.add("X7:vx_before_first")
+        return "vx_before_first(%s, %s)" % (m.group(1), m.group(2))
+    text = re.sub(r"\b([a-z_][a-z0-9_]*)\s*\.split_once\(('.')\)\s*\.map_or\(&\*\*\1, \|x\| x\.0\)", beforefirst, text)
+
+    def parselangs(m):
+        log.add("X7:vx_parse_languages")
+        return "vx_parse_languages(%s)" % m.group(1)
+    text = re.sub(r"\b([a-z_][a-z0-9_]*\[1\])\s*\.split\(','\)\s*\.filter_map\(\|code\| code\.parse\(\)\.ok\(\)\)\s*\.map\(Language::from_code\)\s*\.collect\(\)", parselangs, text)
+
+    def decimal(m):
+        log.add("X7:vx_decimal_u16")
+        return "vx_decimal_u16(%s)" % m.group(1)
+    text = re.sub(r"\bformat!\(\"\{\}\", ([a-z_][a-z0-9_]*\.code\(\))\)", decimal, text)
+
+    def joinsemi(m):
+        log.add("X7:vx_join_semi")
+        return "vx_join_semi(%s, %s)" % (m.group(1), m.group(2))
+    text = re.sub(r"\bformat!\(\"\{\};\{\}\", ((?:[a-z_][a-z0-9_]*\.into\(\))|(?:vx_into_string\([a-z_][a-z0-9_]*\))), ([a-z_][a-z0-9_]*)\)", joinsemi, text)
+
     def btit(m):
         log.add("X7:vx_btree_into_iter")
         return "vx_btree_into_iter(%s)" % m.group(1)
@@ -537,7 +557,29 @@ def x5f_for_enum_kv(text, log):
     return re.sub(r"for \(([a-z_][a-z0-9_]*), \(&([a-z_][a-z0-9_]*), _\)\) in ([^{]+?)\s*\{", f, text)
 
 
+def x3s_into_string(text, log):
+    """`fn f<S: Into<String>>(&mut self, x: S)` is instantiated at S = String: the parameter
+    becomes `x: String` and `x.into()` becomes `vx_into_string(x)` (`impl<T> From<T> for T` is the
+    identity: the shim's body is `x.into()`).  At call sites inside the extracted code a literal
+    argument `self.set_y("lit")` (S = &str) becomes `self.set_y(vx_string_from("lit"))`, the
+    String that `.into()` produces for a &str (`String::from`)."""
+    m = re.search(r"<\s*S\s*:\s*Into<String>\s*>", text)
+    t2 = text
+    if m:
+        t2 = text[:m.start()] + text[m.end():]
+        names = re.findall(r"\b([a-z_][a-z0-9_]*)\s*:\s*S\b", t2)
+        t2 = re.sub(r"\b([a-z_][a-z0-9_]*)\s*:\s*S\b", r"\1: String", t2)
+        for n in names:
+            t2 = re.sub(r"\b%s\.into\(\)" % n, "vx_into_string(%s)" % n, t2)
+        log.add("X3s:S=String")
+    t3 = re.sub(r"\b(self\.set_[a-z_]+)\((\"(?:[^\"\\]|\\.)*\")\)", r"\1(vx_string_from(\2))", t2)
+    if t3 != t2:
+        log.add("X3s:literal-arg->String")
+    return t3
+
+
 OPTS = {
+    "x3s": x3s_into_string,
     "x5f": x5f_for_enum_kv,
     "x5e": x5e_arm_ref_pattern,
     "x3r": x3r_by_value_reader,
